@@ -283,7 +283,8 @@ def gen_case(r, thorough=False):
             else:
                 bad = None
             text = " ".join(toks)
-    return {"grammars": {"main.tx": grammar_text(g)}, "main": "main.tx", "model": text, "reg": reg,
+    postpone = bad is not None and rr.chance(0.5)
+    return {"grammars": {"main.tx": grammar_text(g)}, "main": "main.tx", "model": text, "reg": reg, "postpone_bad": postpone,
             "actions": actions, "user": user, "expect_refs": refs, "expect_error": bad is not None,
             "match_rules": ["W"]}
 
@@ -304,25 +305,55 @@ def show_value(v):
     return "#%d:%d.%d{%s}" % (v["id"], v["cls"][0], v["cls"][1], ";".join(fs))
 
 
-def coq_dcl(d, m):
-    return "(Dcl (CRef %d %d) %s)" % (d[0], d[1], core.coq_bool(m))
+class Terms:
+    """Coq term printer for one case: atoms become indices into a per-case table, declared
+    classes become let-bound names (keeps the generated terms small)."""
 
+    def __init__(self):
+        self.atoms = {}
+        self.dcls = {}
 
-def coq_value(v):
-    if v is None:
-        return "VNone"
-    if "atom" in v:
-        return "(VAtom %s)" % core.coq_str(v["atom"])
-    t = "FNil"
-    for f in reversed(v["fields"]):
-        if f["many"]:
-            vs = "VsNil"
-            for x in reversed(f["v"]):
-                vs = "(VsCons %s %s)" % (coq_value(x), vs)
-            t = "(FMany %d %s %s %s %s)" % (f["n"], core.coq_bool(f["cont"]), coq_dcl(f["d"], f["match"]), vs, t)
-        else:
-            t = "(FOne %d %s %s %s %s)" % (f["n"], core.coq_bool(f["cont"]), coq_dcl(f["d"], f["match"]), coq_value(f["v"]), t)
-    return "(VObj %d (CRef %d %d) %s)" % (v["id"], v["cls"][0], v["cls"][1], t)
+    def atom(self, a):
+        key = core.canon_text(a)
+        if key not in self.atoms:
+            self.atoms[key] = len(self.atoms)
+        return self.atoms[key]
+
+    def dcl(self, d, m):
+        key = (d[0], d[1], bool(m))
+        if key not in self.dcls:
+            self.dcls[key] = "d%d" % len(self.dcls)
+        return self.dcls[key]
+
+    def value(self, v):
+        if v is None:
+            return "VNone"
+        if "atom" in v:
+            return "(VAtom %d)" % self.atom(v["atom"])
+        t = "FNil"
+        for f in reversed(v["fields"]):
+            if f["many"]:
+                vs = "VsNil"
+                for x in reversed(f["v"]):
+                    vs = "(VsCons %s %s)" % (self.value(x), vs)
+                t = "(FMany %d %s %s %s %s)" % (f["n"], core.coq_bool(f["cont"]), self.dcl(f["d"], f["match"]), vs, t)
+            else:
+                t = "(FOne %d %s %s %s %s)" % (f["n"], core.coq_bool(f["cont"]), self.dcl(f["d"], f["match"]), self.value(f["v"]), t)
+        return "(VObj %d (CRef %d %d) %s)" % (v["id"], v["cls"][0], v["cls"][1], t)
+
+    def lets(self):
+        return "".join("let %s := Dcl (CRef %d %d) %s in " % (n, k[0], k[1], core.coq_bool(k[2]))
+                       for k, n in sorted(self.dcls.items(), key=lambda x: int(x[1][1:])))
+
+    def recode(self, text):
+        """Replace the quoted atom texts of an implementation-side canonical string by table indices."""
+        import re
+        return re.sub(r"'([^']*)'", lambda m: "'%d'" % self.atom_key(m.group(1)), text)
+
+    def atom_key(self, key):
+        if key not in self.atoms:
+            self.atoms[key] = len(self.atoms)
+        return self.atoms[key]
 
 
 # ------------------------------------------------------------------ property oracle
